@@ -117,6 +117,10 @@ def stylesheet(rng, extras=False):
         out.append("%s { %s }\n" % (sel, body))
         if rng.random() < 0.2:
             out.append("html { %s: %s; }\n" % (rng.choice(varnames), rng.choice(LITERAL_TEXT)))   # redefinition in a second block
+    if varnames and rng.random() < 0.2:
+        # a :root / html block nested in an at-rule re-declaring a custom property: not a top-level definition
+        out.append("%s { %s { %s: %s; } }\n" % (rng.choice(["@media (min-width: 900px)", "@supports (display: grid)"]), rng.choice([":root", "html"]),
+                                                 rng.choice(varnames), rng.choice(LITERAL_TEXT)))
     if extras and rng.random() < 0.5:
         out.insert(0, "@charset \"utf-8\";\n")
     n = rng.randrange(1, 7)
